@@ -151,6 +151,8 @@ func c10Run(c *core.Ctx) {
 		{"{", ":", ",", "}"},
 		{"{ ", " : ", " , ", " }"},
 		{"{\n  ", ": ", ",\n  ", "\n}\n"},
+		{"{\r\n  ", ": ", ",\r\n  ", "\r\n}\r\n"},       // CRLF, pretty printed
+		{"{\r\n\t", "\t:\t", "\r\n\t, ", "\r\n}"},         // comma first, tabs, CRLF
 	}
 	render := func(sel []int, lay int, wrapArray bool) {
 		L := layouts[lay]
@@ -172,6 +174,11 @@ func c10Run(c *core.Ctx) {
 				// apply the key/value separator spacing at the top-level colon only
 				j := strings.Index(txt, `":`)
 				txt = txt[:j+1] + L.kv + txt[j+2:]
+			}
+			if strings.Contains(L.open, "\r") && strings.HasSuffix(txt, "}") && mem.kind != "" {
+				// pretty printers put the closing brace of a nested object on its own
+				// line: the deciding value is then followed by CR LF inside the object
+				txt = txt[:len(txt)-1] + "\r\n  }"
 			}
 			start := sb.Len()
 			sb.WriteString(txt)
@@ -264,7 +271,7 @@ func recFrom2(c *core.Ctx, sel *[]int, kmax int, render func([]int, int, bool), 
 	}
 	for i := range c10Menu {
 		ok := true
-		if !c.Thorough() && len(s) >= 2 {
+		if len(s) >= 3 || (!c.Thorough() && len(s) >= 2) {
 			for _, j := range s {
 				if c10Rich(j) {
 					ok = false
